@@ -357,6 +357,18 @@ pub fn run(a: &Args) -> Report {
             table.push(("zzz", "a"));
         }
         check_new(id, m, &table, rep);
+        // the same call again after editing the table in place (same addresses, other contents): the outcome must follow the contents
+        if i % 3 == 0 {
+            let k = rng.below(table.len());
+            let new_val = *rng.pick(&pool);
+            table[k].1 = new_val;
+            check_new(id, m, &table, rep);
+            table[k].0 = *rng.pick(&segs);
+            if table.iter().enumerate().all(|(a, x)| table.iter().enumerate().all(|(b, y)| a == b || x.0 != y.0)) {
+                check_new(id, m, &table, rep);
+            }
+            rep.count("replace_tables_edited_in_place", 1);
+        }
         if i < 3 {
             rep.sample(|| json!({"new_with_replace": {"ident": id, "module": m, "table": table}}));
         }
